@@ -44,6 +44,8 @@ structure Obs where
   unsent : Nat
   multi : Nat
   stuck : Nat
+  stats : String := "-"
+  early : Nat := 0     -- batch timers that provably fired before BatchTimeout had elapsed (sound bound, 1 ms tolerance)
   deriving Repr
 
 def JReq.applied (r : JReq) : Bool := r.out == "acked" || r.out == "lost1"
@@ -82,7 +84,7 @@ def holdsC08 (cfg : MCfg) (calls : List CDecl) (journal : List JReq) (obs : Obs)
   calls.all (fun c => !mustReject cfg c ||
     (!isAccepted (retOf obs c.id) && c.msgs.all (fun m => journal.all (fun r => !r.keys.contains m.key)))) &&
   -- every accepted message was scheduled and produced without further input
-  obs.unsent == 0
+  obs.unsent == 0 && obs.early == 0
 
 /-! ## C07 -/
 
@@ -129,7 +131,9 @@ def werrCodes (r : String) : List String := (r.drop 5).toString.splitOn ","
 def dupsOk (journal : List JReq) (obs : Obs) (cfg : MCfg) (m : MDecl) : Bool :=
   let rs := journal.filter (fun r => r.applied && r.keys.contains m.key)
   (rs.dropLast.all (fun r => r.out == "lost1")) &&
-  ((logOf obs (expectedTP cfg m)).count m.key == rs.length)
+  ((logOf obs (expectedTP cfg m)).count m.key == rs.length) &&
+  -- bounded duplication (C01.copies_bounded): at most MaxAttempts produce requests carry the message at all
+  decide ((journal.filter (fun r => r.keys.contains m.key)).length ≤ max cfg.ma 1)
 
 def holdsC01 (cfg : MCfg) (calls : List CDecl) (journal : List JReq) (obs : Obs) : Bool :=
   -- every request reached the broker with the configured acks (≠ None) and options
